@@ -31,6 +31,7 @@ RULES = {
     "C20-H1c": "scpiheap_get_parts satisfies its contract: part 1 ends inside the heap, part 2 exists iff part 1 ends exactly at the end, else length 0",
     "C20-H2": "conservation: bytes copied == decrease of count (strndup), the pieces copied are consecutive pieces of the source; bytes cleared == increase of count (free)",
     "C20-H3": "heap fields are written only by scpiheap_*; scpiheap_* are called only from the error-queue code",
+    "C20-H5": "read-out: the two heap pieces of one text are emitted back to back (the response's ';' is written only before part 1; shared with C18-K7)",
     "C20-H4": "text ownership typestate in the static-heap build; rollback TRUE only for the newest allocations (overflow arm), FALSE at pop/clear",
 }
 
@@ -348,6 +349,8 @@ def run(ck, fb, tier):
         rule_h1_h2(ck, prog)
         rule_h3(ck, prog)
         rule_h4(ck, prog, S)
+        from . import c18
+        c18.rule_k7(ck, prog, S, rule="C20-H5")
     ck.assume("the heap passed to SCPI_InitHeap has the announced size >= 1 and is used by one context only")
     ck.assume("a wrapped second part read by scpiheap_get_parts has its NUL before the end of the heap (string-content fact, not "
               "linear; supported by rule text-terminated: every allocating path of scpiheap_strndup stores the terminating NUL)")
